@@ -165,6 +165,11 @@ func (tw *timeoutWriter) writeHeaderLocked(code int) {
 			internal.Errorf(tw.req, "http: superfluous response.WriteHeader call from %s (%s:%d)",
 				caller.Function, path.Base(caller.File), caller.Line)
 		}
+	case code >= 100 && code <= 199 && code != http.StatusSwitchingProtocols:
+		// 1xx 是信息性响应头（100 Continue、102 Processing、103 Early Hints），不是响应的最终状态，
+		// 其后处理器还会设置真正的状态码。响应在处理器结束前一直被缓冲，
+		// 中间的信息性响应头无从提前送达，所以直接忽略，不能把它锁定为最终状态码。
+		return
 	default:
 		tw.wroteHeader = true
 		tw.code = code
